@@ -262,6 +262,110 @@ def closure_kind(fn, cname):
     return "?"
 
 
+LA = "sum(map(iter(item(a.idx).matcher_columns),len))"
+LB = "sum(map(iter(item(b.idx).matcher_columns),len))"
+# the documented keys of the order, as ordering variables (each is one of '<', '=', '>')
+ORD_VARS = {
+    frozenset(("a.score", "b.score")): ("S", "a.score"),
+    frozenset(("a.idx", "MAX")): ("A", "a.idx"),
+    frozenset(("b.idx", "MAX")): ("B", "b.idx"),
+    frozenset((LA, LB)): ("L", LA),
+    frozenset(("a.idx", "b.idx")): ("I", "a.idx"),
+}
+
+
+def _cmp_literal(cf, e):
+    """Boolean expression -> nested ('cmp', var, set of orderings for which it is true) / ('not', x) / ('const', b)."""
+    e = strip_casts(e)
+    if e[0] == "const" and e[1] in (0, 1, True, False):
+        return ("const", bool(e[1]))
+    if e[0] == "un" and e[1] == "Not":
+        return ("not", _cmp_literal(cf, e[2]))
+    if e[0] == "bin" and e[1] in ("Eq", "Ne", "Lt", "Le", "Gt", "Ge"):
+        x, y = norm_cmp(cf, e[2]), norm_cmp(cf, e[3])
+        key = frozenset((x, y))
+        if key not in ORD_VARS:
+            raise Inconclusive("comparator compares %s with %s, which is not one of the documented keys" % (x, y))
+        var, first = ORD_VARS[key]
+        truth = {"Eq": "=", "Ne": "<>", "Lt": "<", "Le": "<=", "Gt": ">", "Ge": ">="}[e[1]]
+        if x != first:  # operands swapped relative to the variable's orientation
+            truth = truth.translate(str.maketrans("<>", "><"))
+        return ("cmp", var, set(truth))
+    raise Inconclusive("comparator condition is not a comparison of the documented keys: %s" % show(e)[:120])
+
+
+def _eval_lit(l, asg):
+    if l[0] == "const":
+        return l[1]
+    if l[0] == "not":
+        return not _eval_lit(l[1], asg)
+    return asg[l[1]] in l[2]
+
+
+def comparator_spec(asg):
+    """a sorts before b?  (score desc; placeholder last; total column length asc; index asc)"""
+    if asg["S"] != "=":
+        return asg["S"] == ">"
+    if asg["A"] == "=":
+        return False
+    if asg["B"] == "=":
+        return True
+    if asg["L"] == "=":
+        return asg["I"] == "<"
+    return asg["L"] == "<"
+
+
+def check_comparator(ctx, cf):
+    """The comparator, as a decision function over the orderings of its documented keys, equals the documented
+    order for every consistent combination of orderings (whatever the branch structure or helper functions)."""
+    import itertools
+    from cfg import decision_paths
+    paths = decision_paths(cf)
+    table = []
+    for conds, res in paths:
+        if res is None:
+            raise Inconclusive("comparator path without a result")
+        lits = []
+        for d, chosen, allv in conds:
+            lit = _cmp_literal(cf, d)
+            # bool switch: arm value 0 = false, otherwise = true
+            want = (chosen != 0) if chosen is not None else True
+            if chosen is None and 0 not in allv:
+                raise Inconclusive("comparator branches on a non-boolean switch")
+            lits.append((lit, want))
+        table.append((lits, _cmp_literal(cf, res)))
+    n = bad = 0
+    first_bad = None
+    for S, A, B, L, I in itertools.product("<=>", "<=", "<=", "<=>", "<=>"):
+        # consistency between the keys (idx == MAX facts determine the idx ordering; equal indices = same item)
+        if A == "=" and B == "=" and I != "=":
+            continue
+        if A == "=" and B == "<" and I != ">":
+            continue
+        if A == "<" and B == "=" and I != "<":
+            continue
+        if I == "=" and L != "=":
+            continue
+        asg = {"S": S, "A": A, "B": B, "L": L, "I": I}
+        hits = [r for lits, r in table if all(_eval_lit(l, asg) == w for l, w in lits)]
+        if len(hits) != 1:
+            raise Inconclusive("comparator decision paths do not partition the key orderings (%d paths match %s)" % (len(hits), asg))
+        n += 1
+        got = _eval_lit(hits[0], asg)
+        if got != comparator_spec(asg):
+            bad += 1
+            if first_bad is None:
+                first_bad = (asg, got)
+    if bad == 0:
+        ctx.ok(site(cf, 0), "comparator = (score desc; placeholder last; total column length asc; index asc) on all %d consistent key orderings, %d decision paths" % (n, len(table)))
+    else:
+        asg, got = first_bad
+        names = {"S": "score(a) ? score(b)", "A": "a.idx ? MAX", "B": "b.idx ? MAX", "L": "len(a) ? len(b)", "I": "a.idx ? b.idx"}
+        ctx.violation("%s|chain|0" % cf.path, site(cf, 0),
+                      "sort comparator deviates from the documented order on %d of %d key orderings, e.g. %s: it answers %s, the documented order says %s"
+                      % (bad, n, ", ".join("%s is %s" % (names[k], v) for k, v in asg.items()), got, not got))
+
+
 def rule_placeholders(ctx):
     facts = ctx.facts
     _FACTS[0] = facts
@@ -274,69 +378,7 @@ def rule_placeholders(ctx):
     if cmp_e[0] != "closure":
         raise Inconclusive("comparator is not a closure literal")
     cf = get_fn(facts, "nucleo", cmp_e[1])
-    # walk the decision chain
-    chain = []
-    bb = 0
-    seen = set()
-    while bb not in seen:
-        seen.add(bb)
-        t = cf.blocks[bb]["term"]
-        rets = [s for s in cf.blocks[bb]["stmts"] if s["k"] == "assign" and s["lhs"]["l"] == 0 and not s["lhs"]["p"]]
-        if rets:
-            chain.append(("ret", norm_cmp(cf, cf.expr_of_rvalue(rets[-1]["rv"]))))
-            break
-        if t["k"] == "switch":
-            cond = norm_cmp(cf, cf.expr_of_operand(t["discr"]))
-            true_b = t["otherwise"]
-            false_b = [b_ for v, b_ in t["arms"] if v == 0][0]
-
-            def ret_of(b0):
-                b_ = b0
-                s_ = set()
-                while b_ not in s_:
-                    s_.add(b_)
-                    r = [s for s in cf.blocks[b_]["stmts"] if s["k"] == "assign" and s["lhs"]["l"] == 0 and not s["lhs"]["p"]]
-                    if r:
-                        return norm_cmp(cf, cf.expr_of_rvalue(r[-1]["rv"]))
-                    tt = cf.blocks[b_]["term"]
-                    if tt["k"] == "goto":
-                        b_ = tt["target"]
-                    else:
-                        return None
-                return None
-            rt = ret_of(true_b)
-            rf = ret_of(false_b)
-            if rt is not None and rf is not None:
-                chain.append(("if", cond, rt, rf))
-                break
-            if rt is not None:
-                chain.append(("if", cond, rt))
-                bb = false_b
-                continue
-            raise Inconclusive("comparator is not a decision chain at bb%d" % bb)
-        elif t["k"] in ("goto", "call"):
-            bb = t["target"]
-        else:
-            raise Inconclusive("comparator: unexpected terminator %s" % t["k"])
-    la = "sum(map(iter(item(a.idx).matcher_columns),len))"
-    lb = "sum(map(iter(item(b.idx).matcher_columns),len))"
-    expected = [
-        ("if", "Ne(a.score,b.score)", "Gt(a.score,b.score)"),
-        ("if", "Eq(a.idx,MAX)", "0"),
-        ("if", "Eq(b.idx,MAX)", "1"),
-        ("if", "Eq(%s,%s)" % (la, lb), "Lt(a.idx,b.idx)", "Lt(%s,%s)" % (la, lb)),
-    ]
-    if chain == expected:
-        ctx.ok(site(cf, 0), "comparator chain = (score desc; placeholder last; total column length asc; index asc)")
-    else:
-        # report first difference
-        d = None
-        for i in range(max(len(chain), len(expected))):
-            if i >= len(chain) or i >= len(expected) or chain[i] != expected[i]:
-                d = (i, chain[i] if i < len(chain) else None, expected[i] if i < len(expected) else None)
-                break
-        ctx.violation("%s|chain|%d" % (cf.path, d[0]), site(cf, 0),
-                      "sort comparator deviates from the documented order at step %d: found %s, expected %s" % (d[0] + 1, d[1], d[2]))
+    check_comparator(ctx, cf)
     # truncate only when the sort was not cancelled, by exactly the number of placeholders
     tr = [(bi, t) for bi, t in run.calls(lambda t: callee(t).endswith("Vec::<T, A>::truncate"))]
     if not tr:
